@@ -55,4 +55,3 @@ var Types = []Type{
 	wt[serviceinfo.KV]("serviceinfo.KV"), wt[serviceinfo.DevmodModulesChunk]("DevmodModulesChunk"),
 	wt[struct{ OVEntryNum int }]("TO2.GetOVNextEntry"), wt[struct{ Hmac protocol.Hmac }]("DI.SetHmac"),
 }
-
